@@ -156,6 +156,15 @@ func (f *frame) trans(e CE, env *Env) TV {
 				return TV{T: intLit(-n), S: "Int", Lit: true}
 			}
 			return TV{T: "(- " + v.T + ")", S: v.S, Ty: v.Ty}
+		case "*":
+			if v.Ty == nil {
+				cfail("dereference of untyped value %s", x.X)
+			}
+			pt, ok := v.Ty.Underlying().(*types.Pointer)
+			if !ok {
+				cfail("dereference of non-pointer %s", x.X)
+			}
+			return f.load(env.st, f.lvOfRef(v.T, pt.Elem()))
 		}
 	case *CBin:
 		return f.transBin(x, env)
@@ -303,12 +312,17 @@ func (f *frame) localAt(name string, env *Env) (TV, bool) {
 				break
 			}
 			d, ok := in.(*ssa.DebugRef)
-			if !ok || d.IsAddr {
+			if !ok {
 				continue
 			}
-			id, ok := d.Expr.(interface{ String() string })
-			_ = id
-			if o := d.Object(); o != nil && o.Name() == name && types.Identical(o.Type(), d.X.Type()) {
+			if o := d.Object(); o != nil && o.Name() == name {
+				if d.IsAddr {
+					if pt, isP := d.X.Type().Underlying().(*types.Pointer); !isP || !types.Identical(o.Type(), pt.Elem()) {
+						continue
+					}
+				} else if !types.Identical(o.Type(), d.X.Type()) {
+					continue
+				}
 				if best == nil || best.Block() == b || best.Block().Dominates(b) {
 					best = d
 				}
@@ -317,6 +331,21 @@ func (f *frame) localAt(name string, env *Env) (TV, bool) {
 	}
 	if best == nil {
 		return TV{}, false
+	}
+	if best.IsAddr {
+		// address-taken variable: its value is the content of its cell in the
+		// state the expression is evaluated in
+		if env.st == nil {
+			return TV{}, false
+		}
+		if _, isLV := f.lvs[best.X]; !isLV {
+			if _, ok := f.vals[best.X]; !ok {
+				if _, isG := best.X.(*ssa.Global); !isG {
+					return TV{}, false
+				}
+			}
+		}
+		return f.load(env.st, f.lvalOf(best.X)), true
 	}
 	// the value must not be redefined inside a loop that contains the anchor
 	// unless it is a header phi (handled by headEnv before we get here)
